@@ -20,6 +20,7 @@ VERIF = os.path.dirname(HERE)
 REPO = os.environ.get("VERIF_REPO", "/repo")
 sys.path.insert(0, HERE)
 import registry  # noqa
+import cldr_ref  # noqa
 
 KANI_TC = None
 GUARD_CFG = "unic_locale_verif"
@@ -273,13 +274,17 @@ class Job:
             us[lp["name"]] = b
         return us
 
-    def run_cbmc(self, overrides):
+    def run_cbmc(self, overrides, only_props=None):
         us = self.unwindset(overrides)
         self.us = us
         cmd = ["cbmc"] + CBMC_BASE + list(self.spec.cbmc or []) + ["--unwind", str(self.spec.unwind)]
         if us:
             cmd += ["--unwindset", ",".join("%s:%d" % kv for kv in sorted(us.items()))]
-        cmd += [self.goto, "--verbosity", "8", "--json-ui", "--trace"]
+        cmd += [self.goto, "--verbosity", "8", "--json-ui"]
+        if self.spec.trace or only_props:
+            cmd.append("--trace")
+        for pr in (only_props or []):
+            cmd += ["--property", pr]
         self.cbmc_cmd = cmd
         out = os.path.join(self.work, self.spec.harness + ".cbmc.json")
         timeout = self.spec.timeout_t if self.tier == "thorough" else self.spec.timeout_q
@@ -336,6 +341,19 @@ class Job:
                 if result is None:
                     break
                 verdict = self.classify(result)
+                if verdict == "failed" and any(not f.get("vals") for f in self.res["failures"]):
+                    # big instances run without --trace: fetch the counterexamples of the failed properties only
+                    want = [f["property"] for f in self.res["failures"][:3]]
+                    saved = dict(self.res)
+                    res2 = self.run_cbmc(overrides, only_props=want)
+                    got = {}
+                    for p in (res2 or []):
+                        if p.get("status") == "FAILURE" and p.get("trace"):
+                            got[p.get("property")] = trace_values(p["trace"])
+                    self.res = saved
+                    for f in self.res["failures"]:
+                        if f["property"] in got:
+                            f["vals"] = got[f["property"]]
                 if verdict != "raise":
                     break
                 # an unwinding assertion failed: raise that loop's bound and re-run (DESIGN 2.1 step 4)
@@ -563,6 +581,9 @@ def drive(pid, prop, a, seed, scratch, t0):
 
     # 0. pre-steps (reference tables re-derived from /repo data; spec validation on repo fixtures)
     pre = {}
+    t_ref = time.time()
+    pre["cldr_ref"] = cldr_ref.write(REPO, VERIF)
+    pre["cldr_ref"]["seconds"] = round(time.time() - t_ref, 2)
     for step in prop.pre:
         pre[step.__name__] = step(REPO, VERIF, scratch, log)
 
